@@ -251,7 +251,7 @@ fn generate(rng: &mut Rng, tier: &str, w: &mut CaseWriter) {
         let maxp = max_position(ms, d);
         let k = rng.range(0, 14);
         let mut recs = Vec::new();
-        let mut off = rng.below(1000);
+        let mut off = if rng.chance(1, 3) { 0 } else { rng.below(1000) };
         let mut s0 = rng.range(1, maxp);
         if rng.chance(1, 2) {
             s0 = rng.range(1, (1u64 << ms) * 3).min(maxp);
@@ -333,7 +333,9 @@ fn gen_bai_case(rng: &mut Rng, w: &mut CaseWriter) {
             .iter()
             .map(|id| {
                 let k = rng.range(0, 3) as usize;
-                let cs: Vec<(u64, u64)> = (0..k).map(|_| (gen_u64(rng), gen_u64(rng))).collect();
+                let cs: Vec<(u64, u64)> = (0..k)
+                    .map(|i| if i == 0 && rng.chance(1, 4) { (0, gen_u64(rng)) } else { (gen_u64(rng), gen_u64(rng)) })
+                    .collect();
                 format!("{id}={}", fmt_chunks(&cs))
             })
             .collect();
@@ -543,7 +545,8 @@ fn run_idxrt(kind: &str, seed: u64) -> Obs {
         if let Some(h) = hdr {
             ix = ix.set_header(h);
         }
-        let mut off = rng.below(1 << 20);
+        // first record at virtual position 0 in a third of the cases
+        let mut off = if rng.chance(1, 3) { 0 } else { rng.below(1 << 20) };
         for r in 0..nref {
             if rng.chance(1, 5) {
                 continue; // empty reference
@@ -595,6 +598,12 @@ fn run_idxrt(kind: &str, seed: u64) -> Obs {
                 Err(e) => return Obs::fail("-", "bai-read-error", format!("seed={seed} {e}")),
             };
             let qs = queries(&mut rng);
+            // the async reader: the same index (all fields) and the same query answers
+            match c17_layout::async_bai(buf.clone()) {
+                Ok(a) if a == back && answers(&a, &qs) == answers(&back, &qs) => {}
+                Ok(_) => return Obs::fail("-", "bai-async-reader-differs-from-sync", format!("seed={seed}")),
+                Err(e) => return Obs::fail("-", "bai-async-read-error", format!("seed={seed} {e}")),
+            }
             if back != index && answers(&back, &qs) != answers(&index, &qs) {
                 return Obs::fail("-", "bai-roundtrip-differs", format!("seed={seed}"));
             }
@@ -615,11 +624,24 @@ fn run_idxrt(kind: &str, seed: u64) -> Obs {
                 return Obs::fail("-", "csi-write-error", format!("{e}"));
             }
             let buf = w.into_inner().finish().unwrap();
-            let back = match csi::io::Reader::new(Cursor::new(buf)).read_index() {
+            let back = match csi::io::Reader::new(Cursor::new(buf.clone())).read_index() {
                 Ok(i) => i,
                 Err(e) => return Obs::fail("-", "csi-read-error", format!("seed={seed} {e}")),
             };
             let qs = queries(&mut rng);
+            // the async reader: the same index (all fields, loffsets equal to 0 included) and the
+            // same query answers
+            match c17_layout::async_csi(buf) {
+                Ok(x) if x == back && answers(&x, &qs) == answers(&back, &qs) => {}
+                Ok(x) => {
+                    return Obs::fail(
+                        "-",
+                        "csi-async-reader-differs-from-sync",
+                        format!("seed={seed} sync={} async={}", c17_layout::fmt_csi_res(&Ok(back)), c17_layout::fmt_csi_res(&Ok(x))),
+                    );
+                }
+                Err(e) => return Obs::fail("-", "csi-async-read-error", format!("seed={seed} {e}")),
+            }
             let (a, b) = (answers(&index, &qs), answers(&back, &qs));
             if a != b {
                 // Is this exactly the known cause?  The CSI writer stores, for each bin, the minimum
@@ -697,10 +719,19 @@ fn run_idxrt(kind: &str, seed: u64) -> Obs {
                 return Obs::fail("-", "tbi-write-error", format!("seed={seed} {e}"));
             }
             let buf = w.into_inner().finish().unwrap();
-            let back = match tabix::io::Reader::new(Cursor::new(buf)).read_index() {
+            let back = match tabix::io::Reader::new(Cursor::new(buf.clone())).read_index() {
                 Ok(i) => i,
                 Err(e) => return Obs::fail("-", "tbi-read-error", format!("seed={seed} {e}")),
             };
+            let qs = queries(&mut rng);
+            match c17_layout::async_tbi(buf) {
+                Ok(a) if a == back && answers(&a, &qs) == answers(&back, &qs) => {}
+                Ok(_) => return Obs::fail("-", "tbi-async-reader-differs-from-sync", format!("seed={seed}")),
+                Err(e) => return Obs::fail("-", "tbi-async-read-error", format!("seed={seed} {e}")),
+            }
+            if answers(&back, &qs) != answers(&index, &qs) {
+                return Obs::fail("-", "tbi-roundtrip-differs", format!("seed={seed}"));
+            }
             if back != index {
                 return Obs::fail("-", "tbi-roundtrip-not-equal", format!("seed={seed}"));
             }
@@ -728,10 +759,20 @@ fn run_csil(c: &Case) -> Obs {
         return Obs::fail(format!("Err:{:?}", e.kind()), "csi-write-error", format!("{e}"));
     }
     let buf = w.into_inner().finish().unwrap();
-    let back = match csi::io::Reader::new(Cursor::new(buf)).read_index() {
+    let back = match csi::io::Reader::new(Cursor::new(buf.clone())).read_index() {
         Ok(i) => i,
         Err(e) => return Obs::fail("Err", "csi-read-error", format!("{e} {}", c.line())),
     };
+    match c17_layout::async_csi(buf) {
+        Ok(x) if x == back => {}
+        other => {
+            return Obs::fail(
+                "-",
+                "csi-async-reader-differs-from-sync",
+                format!("sync={} async={} {}", c17_layout::fmt_csi_res(&Ok(back)), c17_layout::fmt_csi_res(&other), c.line()),
+            );
+        }
+    }
     let rs = &back.reference_sequences()[0];
     let obs: Vec<String> = rs
         .bins()
@@ -778,6 +819,11 @@ fn run_bai(c: &Case) -> Obs {
     if let Err(e) = bai::io::Writer::new(&mut buf).write_index(&index) {
         return Obs::fail(format!("Err:{:?}", e.kind()), "bai-write-error", format!("{e}"));
     }
+    match c17_layout::async_bai(buf.clone()) {
+        Ok(a) if a == index => {}
+        Ok(_) => return Obs::fail(format!("{} same", nv::hex(&buf)), "bai-async-roundtrip-not-equal", c.line()),
+        Err(e) => return Obs::fail(format!("{} same", nv::hex(&buf)), "bai-async-read-error", format!("{e} {}", c.line())),
+    }
     match bai::io::Reader::new(&buf[..]).read_index() {
         Ok(back) if back == index => Obs::ok(format!("{} same", nv::hex(&buf)), nontrivial),
         Ok(_) => Obs::fail(format!("{} different", nv::hex(&buf)), "bai-roundtrip-not-equal", c.line()),
@@ -800,6 +846,11 @@ fn run_gzi(c: &Case) -> Obs {
         Ok(_) => "accepted",
         Err(_) => "Err",
     };
+    match c17_layout::async_gzi(buf.clone()) {
+        Ok(a) if a == index => {}
+        Ok(_) => return Obs::fail("-", "gzi-async-roundtrip-not-equal", c.line()),
+        Err(e) => return Obs::fail("-", "gzi-async-read-error", format!("{e} {}", c.line())),
+    }
     match back {
         Ok(b) if b == index => Obs::ok(format!("{} same {trailing}", nv::hex(&buf)), !cs.is_empty()),
         Ok(_) => Obs::fail(format!("{} different {trailing}", nv::hex(&buf)), "gzi-roundtrip-not-equal", c.line()),
@@ -843,6 +894,14 @@ fn run_fai(seed: u64) -> Obs {
     if let Err(e) = fai::io::Writer::new(&mut buf).write_index(&index) {
         return Obs::fail("-", "fai-write-error", format!("seed={seed} {e}"));
     }
+    // the async reader must read the written index back equal as well (tagged like the sync
+    // reader's class when the name is not UTF-8, so that a recurrence of that defect is one class)
+    match c17_layout::async_fai(buf.clone()) {
+        Ok(a) if a == index => {}
+        Ok(_) => return Obs::fail("-", "fai-async-roundtrip-not-equal", format!("seed={seed}")),
+        Err(e) if non_utf8 => return Obs::fail("-", "fai-non-utf8-name", format!("seed={seed} async {e}")),
+        Err(e) => return Obs::fail("-", "fai-async-read-error", format!("seed={seed} {e}")),
+    }
     match fai::io::Reader::new(&buf[..]).read_index() {
         Ok(back) if back == index => Obs::ok("-", n > 0),
         Ok(_) => Obs::fail("-", "fai-roundtrip-not-equal", format!("seed={seed} text={:?}", String::from_utf8_lossy(&buf))),
@@ -880,6 +939,11 @@ fn run_crai(seed: u64) -> Obs {
         Ok(b) => b,
         Err(e) => return Obs::fail("-", "crai-finish-error", format!("seed={seed} {e}")),
     };
+    match c17_layout::async_crai(buf.clone()) {
+        Ok(a) if a == recs => {}
+        Ok(a) => return Obs::fail("-", "crai-async-roundtrip-not-equal", format!("seed={seed} wrote={recs:?} read={a:?}")),
+        Err(e) => return Obs::fail("-", "crai-async-read-error", format!("seed={seed} {e} wrote={recs:?}")),
+    }
     match crai::io::Reader::new(&buf[..]).read_index() {
         Ok(back) if back == recs => Obs::ok("-", n > 0),
         Ok(back) => Obs::fail("-", "crai-roundtrip-not-equal", format!("seed={seed} wrote={recs:?} read={back:?}")),
